@@ -51,6 +51,19 @@ theorem attribute_total (m : Msg) (k : Kind) : ∀ f, m.attribute k ≠ .error (
   · intro h; cases h
   · exact C08.decode_total k _ f
 
+/-- `Display`/`Debug` of a message: the control flow (the text is not modelled) iterates the exposed
+    attributes and, for each attribute whose type is one of the built-in kinds, attempts that kind's
+    typed decoder, falling back to a "malformed" rendering on error.  Every decode it attempts
+    returns a value or an error. -/
+def displayDecodes (m : Msg) : List (Except PErr AttrVal) :=
+  m.iter.flatMap fun a => (Kind.all.filter fun k => k.code = a.ty).map fun k => fromRaw k a
+
+theorem display_total (m : Msg) : ∀ r ∈ displayDecodes m, ∀ f, r ≠ .error (.fault f) := by
+  intro r hr f
+  simp only [displayDecodes, List.mem_flatMap, List.mem_map, List.mem_filter] at hr
+  obtain ⟨a, _, k, _, rfl⟩ := hr
+  exact C08.decode_total k a f
+
 /-- `validate_integrity` on an accepted message with arbitrary credentials -/
 theorem validate_total (H : Hashes) (b : Bytes) (m : Msg) (c : Creds) (hp : msgFromBytes b = .ok m) :
     ∀ f, m.validateIntegrity H c ≠ .error (.fault f) := C04.validate_total H b m c hp
